@@ -91,8 +91,10 @@ fn fit_forest(case: &ForestCase) -> Result<Result<Out, String>, String> {
             if case.x.len() % 2 != 0 {
                 p = p.with_seed(case.seed).with_keep_samples(case.keep_samples).with_min_samples_split(case.min_samples_split).with_min_samples_leaf(case.min_samples_leaf).with_n_trees(case.n_trees).with_criterion(criterion);
             }
-            let f = RandomForestClassifier::fit(&xm, &case.y, p).map_err(|e| format!("fit: {}", e))?;
-            Ok(Out { json: serde_json::to_value(&f).map_err(|e| e.to_string())?, pred: f.predict(&qm).map_err(|e| format!("predict: {}", e))?, oob: f.predict_oob(&xm).map_err(|e| e.to_string()), model: Forest::C(f) })
+            // inherent entry points, or (every other case) the generic traits of smartcore::api
+            let via_trait = (case.x.len() / 2) % 2 == 1;
+            let f: RandomForestClassifier<f64> = if via_trait { sup_fit(&xm, &case.y, p) } else { RandomForestClassifier::fit(&xm, &case.y, p) }.map_err(|e| format!("fit: {}", e))?;
+            Ok(Out { json: serde_json::to_value(&f).map_err(|e| e.to_string())?, pred: if via_trait { tr_predict(&f, &qm) } else { f.predict(&qm) }.map_err(|e| format!("predict: {}", e))?, oob: f.predict_oob(&xm).map_err(|e| e.to_string()), model: Forest::C(f) })
         } else {
             let mut p = RandomForestRegressorParameters::default();
             if case.x.len() % 2 == 0 {
@@ -107,8 +109,9 @@ fn fit_forest(case: &ForestCase) -> Result<Result<Out, String>, String> {
             if case.x.len() % 2 != 0 {
                 p = p.with_seed(case.seed).with_keep_samples(case.keep_samples).with_min_samples_split(case.min_samples_split).with_min_samples_leaf(case.min_samples_leaf).with_n_trees(case.n_trees as usize);
             }
-            let f = RandomForestRegressor::fit(&xm, &case.y, p).map_err(|e| format!("fit: {}", e))?;
-            Ok(Out { json: serde_json::to_value(&f).map_err(|e| e.to_string())?, pred: f.predict(&qm).map_err(|e| format!("predict: {}", e))?, oob: f.predict_oob(&xm).map_err(|e| e.to_string()), model: Forest::R(f) })
+            let via_trait = (case.x.len() / 2) % 2 == 1;
+            let f: RandomForestRegressor<f64> = if via_trait { sup_fit(&xm, &case.y, p) } else { RandomForestRegressor::fit(&xm, &case.y, p) }.map_err(|e| format!("fit: {}", e))?;
+            Ok(Out { json: serde_json::to_value(&f).map_err(|e| e.to_string())?, pred: if via_trait { tr_predict(&f, &qm) } else { f.predict(&qm) }.map_err(|e| format!("predict: {}", e))?, oob: f.predict_oob(&xm).map_err(|e| e.to_string()), model: Forest::R(f) })
         }
     })
 }
